@@ -1,4 +1,5 @@
 import WindVerif.Model.TmpPool
+import WindVerif.Model.FilePoolFail
 import WindVerif.Drv.Common
 namespace WindVerif.Drv
 open WindVerif.TmpPool
@@ -9,7 +10,25 @@ def tpErr : TmpPool.Err → String
 
 structure TPState where
   pool : Pool
-  fp   : FPool
+  fp   : FilePoolFail.FP   -- FilePool: the model with files that cannot be opened (`Model/FilePoolFail.lean`)
+  last : List Nat           -- FilePool: the handles the last successful `fp_enter` put into the mapping, one per given path
+
+def bit (b : Bool) : String := if b then "1" else "0"
+
+/-- ` leaked:…` (one entry per handle leaked since `fp_new`, in the order they were leaked; 1 = still open); nothing when no
+handle was leaked, so that the answers of histories without failures are the old ones -/
+def fpLeaked (fp : FilePoolFail.FP) : String :=
+  if fp.leaked.isEmpty then "" else " leaked:" ++ joinWith "," (fp.leaked.map (fun ph => bit (fp.openH.contains ph.2)))
+
+def fpHandles (fp : FilePoolFail.FP) : String := if fp.mapping.isNone then " handles:none" else " handles:some"
+
+/-- `fp_exit` / `fp_raise`: `__exit__` is `close()` in both cases -/
+def fpExitStep (st : TPState) : TPState × String :=
+  match FilePoolFail.fpExit st.fp with
+  | (fp, .ok _) =>
+    ({ st with fp := fp }, "closed:" ++ joinWith "," (st.last.map (fun h => bit (!fp.openH.contains h))) ++ fpHandles fp ++
+      fpLeaked fp)
+  | (fp, .error _) => ({ st with fp := fp }, "err AttributeError" ++ fpHandles fp ++ fpLeaked fp)
 
 def tpDump (s : Pool) : String :=
   s!"L:{showNats ((s.listOf 0).getD [])} D:{showNats s.fs}"
@@ -41,19 +60,24 @@ def tmppoolStep (st : TPState) (ws : List String) : TPState × String :=
   | ["exit"] => (match s.exit with | .ok s' => fin s' "ok" | .error e => fin s s!"err {tpErr e}")
   | ["raise"] => (match s.exit with | .ok s' => fin s' "ok" | .error e => fin s s!"err {tpErr e}")
   | "fp_new" :: fs => match parseNatsTP fs with
-    | some l => ({ st with fp := FPool.new l }, "ok")
+    | some l => ({ st with fp := FilePoolFail.FP.new l [], last := [] }, "ok")
+    | none => (st, "bad-op")
+  -- `fp_missing k…`: from now on exactly these paths do not exist (handles that are open stay open)
+  | "fp_missing" :: ks => match parseNatsTP ks with
+    | some l => ({ st with fp := { st.fp with missing := l } }, "ok")
+    | none => (st, "bad-op")
+  | ["fp_create", k] => match k.toNat? with
+    | some k => ({ st with fp := FilePoolFail.fpCreate st.fp k }, "ok")
     | none => (st, "bad-op")
   | ["fp_enter"] =>
-    let fp := st.fp.open
-    ({ st with fp := fp }, "open:" ++ showNats ((fp.handles.getD []).map (fun b => if b then 1 else 0)))
-  | ["fp_exit"] =>
-    let fp := st.fp.close
-    ({ st with fp := fp }, "closed:" ++ showNats (fp.closedLog.map (fun b => if b then 0 else 1)) ++
-      (if fp.handles.isNone then " handles:none" else " handles:some"))
-  | ["fp_raise"] =>
-    let fp := st.fp.close
-    ({ st with fp := fp }, "closed:" ++ showNats (fp.closedLog.map (fun b => if b then 0 else 1)) ++
-      (if fp.handles.isNone then " handles:none" else " handles:some"))
+    (match FilePoolFail.fpEnter st.fp with
+    | (fp, .ok _) =>
+      let d := fp.mapping.getD []
+      let hs := fp.files.filterMap (fun p => FilePoolFail.dictGet d p)
+      ({ st with fp := fp, last := hs }, "open:" ++ joinWith "," (hs.map (fun h => bit (fp.openH.contains h))) ++ fpLeaked fp)
+    | (fp, .error _) => ({ st with fp := fp }, "err FileNotFoundError" ++ fpHandles fp ++ fpLeaked fp))
+  | ["fp_exit"] => fpExitStep st
+  | ["fp_raise"] => fpExitStep st
   | _ => (st, "bad-op")
 where
   parseNatsTP : List String → Option (List Nat)
@@ -62,6 +86,6 @@ where
       | some i, some l => some (i :: l)
       | _, _ => none
 
-def tmppoolMachine : Machine := { σ := TPState, init := ⟨Pool.new, FPool.new []⟩, step := tmppoolStep }
+def tmppoolMachine : Machine := { σ := TPState, init := ⟨Pool.new, FilePoolFail.FP.new [] [], []⟩, step := tmppoolStep }
 
 end WindVerif.Drv
